@@ -11,7 +11,7 @@ const DIMS: [(&str, [&str; 3]); 3] = [
     ("Time", ["s", "min", "h"]),
     ("Scalar", ["1", "percent", "dozen"]),
 ];
-const MAGS: [&str; 9] = ["1", "1.0000000000000002", "2", "NaN", "0", "-1", "100", "2.54", "0.1"];
+const MAGS: [&str; 13] = ["1", "1.0000000000000002", "2", "NaN", "0", "-1", "100", "2.54", "0.1", "inf", "-inf", "1e308", "1e-310"];
 const EPS_MAGS: [&str; 8] = ["0", "1e-9", "0.5", "1", "-1", "NaN", "inf", "100"];
 
 fn q(mag: &str, unit: &str) -> String {
@@ -230,7 +230,7 @@ pub fn check(rep: &mut Report) {
     if pass == 0 || fail == 0 {
         rep.machinery_error("vacuous: all assertions had the same expected outcome");
     }
-    rep.rule = "value alphabet (3 dimensions x 3 units x 9 magnitudes incl. NaN, 0, a 1-ulp neighbour) squared for assert_eq/2; a sub-alphabet squared x (3 units x 8 eps magnitudes incl. 0, negative, NaN, inf) for assert_eq/3; booleans for assert; booleans/strings/lists squared for assert_eq/2; each assertion embedded between marker statements; predicate computed from separately evaluated conversions with the comparison done by the harness; non-trivial = cases with two different operands or a tolerance".into();
+    rep.rule = "value alphabet (3 dimensions x 3 units x 13 magnitudes incl. NaN, 0, a 1-ulp neighbour, both infinities, a value that overflows in the smaller units and a subnormal) squared for assert_eq/2; a sub-alphabet squared x (3 units x 8 eps magnitudes incl. 0, negative, NaN, inf) for assert_eq/3; booleans for assert; booleans/strings/lists squared for assert_eq/2; each assertion embedded between marker statements; predicate computed from separately evaluated conversions with the comparison done by the harness; non-trivial = cases with two different operands or a tolerance".into();
     rep.assumptions = vec![
         "the conversion `a -> unit` itself is C04's subject and is taken from the interpreter; the comparison |a-b| <= eps and a == b is the harness's f64 arithmetic".into(),
         "for non-quantities the predicate is the interpreter's own `==`, evaluated separately".into(),
